@@ -7,6 +7,10 @@ verus! {
 //@include ../common/bytes.rs
 //@include ../common/codec_traits.rs
 
+/// LinesCodec is STATELESS (a unit struct): the contracts below say that what `decode` does is a function of the buffer
+/// alone.  A codec that gains state needs a representation invariant these contracts do not have, so a reshaped type is
+/// answered "undecided", not judged against the stateless contract.
+//@check_unit_struct file=actix-codec/src/lines.rs name=LinesCodec
 pub struct LinesCodec;
 
 /// `impl AsRef<str>` argument of `encode`: a value whose `as_ref()` is a str with known UTF-8 bytes
@@ -111,8 +115,6 @@ impl Decoder for LinesCodec {
             let o = old(src)@;
             assert(buf@ =~= strip_cr(o.subrange(0, len as int)));
         }
-//@insert after="None => {"
-                proof { assert(!has_nl(src@)); }
 //@end
 
 //@extract file=actix-codec/src/lines.rs item="impl Decoder for LinesCodec / fn decode_eof" ret=r props=C15,C13 err_closures str_paths
